@@ -79,6 +79,8 @@ pub struct Call {
     pub ret_step: Option<u64>,
     pub ret_ms: i64,
     pub result: R,
+    /// the ack ids an ack / nack / modify operation carried
+    pub arg_ids: Vec<String>,
 }
 
 #[derive(Clone, Default)]
@@ -87,8 +89,11 @@ pub struct Hist(pub Arc<Mutex<Vec<Call>>>);
 impl Hist {
     fn invoke(&self, cx: &Ctx, client: usize, op: &COp, note: &'static str) -> usize {
         let mut h = self.0.lock().unwrap();
-        h.push(Call { client, op: op.clone(), note, invoke_step: cx.step(), invoke_ms: cx.now_ms(), ret_step: None, ret_ms: 0, result: R::Pending });
+        h.push(Call { client, op: op.clone(), note, invoke_step: cx.step(), invoke_ms: cx.now_ms(), ret_step: None, ret_ms: 0, result: R::Pending, arg_ids: vec![] });
         h.len() - 1
+    }
+    fn set_ids(&self, idx: usize, ids: &[String]) {
+        self.0.lock().unwrap()[idx].arg_ids = ids.to_vec();
     }
     fn ret(&self, cx: &Ctx, idx: usize, r: R) {
         let mut h = self.0.lock().unwrap();
@@ -149,11 +154,25 @@ pub fn start(cx: &Ctx, programs: &[Vec<COp>], held: &[Vec<Rm>]) -> Litmus {
                         }
                         R::Msgs(r)
                     }
-                    COp::AckHeld(s, j) => R::Unit(a.ack(s, mine.get(j).map(|m| vec![m.ack_id.clone()]).unwrap_or_default()).await),
-                    COp::NackHeld(s, j) => R::Unit(a.modify(s, mine.get(j).map(|m| vec![m.ack_id.clone()]).unwrap_or_default(), 0).await),
-                    COp::ModHeld(s, j, secs) => R::Unit(a.modify(s, mine.get(j).map(|m| vec![m.ack_id.clone()]).unwrap_or_default(), secs).await),
-                    COp::AckLast(s) => R::Unit(a.ack(s, last.iter().map(|m| m.ack_id.clone()).collect()).await),
-                    COp::NackLast(s) => R::Unit(a.modify(s, last.iter().map(|m| m.ack_id.clone()).collect(), 0).await),
+                    COp::AckHeld(s, j) | COp::NackHeld(s, j) | COp::ModHeld(s, j, _) => {
+                        let ids: Vec<String> = mine.get(j).map(|m| vec![m.ack_id.clone()]).unwrap_or_default();
+                        hist2.set_ids(i, &ids);
+                        match op {
+                            COp::AckHeld(..) => R::Unit(a.ack(s, ids).await),
+                            COp::NackHeld(..) => R::Unit(a.modify(s, ids, 0).await),
+                            COp::ModHeld(_, _, secs) => R::Unit(a.modify(s, ids, secs).await),
+                            _ => unreachable!(),
+                        }
+                    }
+                    COp::AckLast(s) | COp::NackLast(s) => {
+                        let ids: Vec<String> = last.iter().map(|m| m.ack_id.clone()).collect();
+                        hist2.set_ids(i, &ids);
+                        if matches!(op, COp::AckLast(..)) {
+                            R::Unit(a.ack(s, ids).await)
+                        } else {
+                            R::Unit(a.modify(s, ids, 0).await)
+                        }
+                    }
                     COp::ListTopics => R::Names(a.list_topics("projects/p", 1000, "").await.map(|x| x.0)),
                     COp::ListSubs => R::Names(a.list_subs("projects/p", 1000, "").await.map(|x| x.0.into_iter().map(|v| v.name).collect())),
                     COp::ListTopicSubs(t) => R::Names(a.list_topic_subs(t, 1000, "").await.map(|x| x.0)),
